@@ -143,7 +143,7 @@ class KeyedList(Generic[ItemType, KeyType], MutableSequence, KeyedBase):  # pyli
 
     def __getitem__(self, index_or_key):
         if isinstance(index_or_key, slice):
-            return type(self)(self._list[index_or_key], self.key)
+            return type(self)(self._list[index_or_key], self._key)
         if isinstance(index_or_key, int):
             return self._list[index_or_key]
         return self._dict[index_or_key]
